@@ -35,6 +35,11 @@ func c12Scenarios(thorough bool) []cmdScn {
 	// two terminals
 	out = append(out, cmdScn{Name: "c12:2x2:inorder", Terms: []termSpec{{Phone: p1, Behaviour: "inorder", Expect: 1}, {Phone: p2, V2019: true, Behaviour: "inorder", Expect: 1}},
 		Calls: []callSpec{{Key: p1, Cmd: 0x8104, TimeoutMs: 3000}, {Key: p2, Cmd: 0x8801, TimeoutMs: 3000}}})
+	// two terminals answering the SAME kind of response at the same time (response parsing state must be per connection)
+	for _, cmd := range []uint16{0x8103, 0x8104, 0x8801, 0x9205, 0x9206} {
+		out = append(out, cmdScn{Name: fmt.Sprintf("c12:2x2:same-kind:%04x", cmd), Terms: []termSpec{{Phone: p1, Behaviour: "inorder", Expect: 1}, {Phone: p2, V2019: true, Behaviour: "inorder", Expect: 1}},
+			Calls: []callSpec{{Key: p1, Cmd: cmd, TimeoutMs: 3000}, {Key: p2, Cmd: cmd, TimeoutMs: 3000}}})
+	}
 	out = append(out, cmdScn{Name: "c12:2x2:one-silent", Terms: []termSpec{{Phone: p1, Behaviour: "never", Expect: 1}, {Phone: p2, Behaviour: "inorder", Expect: 1, PreHB: 2}},
 		Calls: []callSpec{{Key: p1, Cmd: 0x9101, TimeoutMs: 100}, {Key: p2, Cmd: 0x9205, TimeoutMs: 3000}}})
 	// one caller sending sequentially, re-using a single ActiveMessage object, first command with a short timeout
@@ -238,7 +243,7 @@ func init() {
 	drv := map[string]func(json.RawMessage) string{"cmd": cmdReplay}
 	vc.Register(&vc.Check{
 		ID: "C12", Level: "model_checking", SingleProc: true,
-		Rule: "real server + scripted terminals + 1..2 (thorough 3) concurrent SendActiveMessage callers with commands from {8103,8104,8801,9101,9205,9206}; terminal behaviours {in order, reverse, only the second, first twice, unknown serial, never, late (after the timers)}, optional heartbeat/location noise, one and two terminals, an absent key, a caller that sends sequentially re-using one ActiveMessage object (every command answered; the first answered or expired and the next never answered), a terminal whose first message gets no reply so that the first command carries platform serial 0, two commands issued after 65536 platform frames so that their serials follow the wrap (the preamble runs once per execution under the default schedule, 1 deviation afterwards), 4 and 5 commands answered by the terminal in one burst (in order and reversed), 4 and 5 commands to a silent terminal that all expire while the connection's writer sits in a slow user callback (more timeouts at once than the 3-slot completion queue holds); " +
+		Rule: "real server + scripted terminals + 1..2 (thorough 3) concurrent SendActiveMessage callers with commands from {8103,8104,8801,9101,9205,9206}; terminal behaviours {in order, reverse, only the second, first twice, unknown serial, never, late (after the timers)}, optional heartbeat/location noise, one and two terminals (also both answering the same kind of response at once, for each of the five response kinds), an absent key, a caller that sends sequentially re-using one ActiveMessage object (every command answered; the first answered or expired and the next never answered), a terminal whose first message gets no reply so that the first command carries platform serial 0, two commands issued after 65536 platform frames so that their serials follow the wrap (the preamble runs once per execution under the default schedule, 1 deviation afterwards), 4 and 5 commands answered by the terminal in one burst (in order and reversed), 4 and 5 commands to a silent terminal that all expire while the connection's writer sits in a slow user callback (more timeouts at once than the 3-slot completion queue holds); " +
 			"ALL schedules within the deviation bound (2 quick, 3 thorough), timers are scheduler events that may fire at any point (firing ahead of a runnable thread is a deviation). Then EVERY thread interleaving (no preemption bound) of the scenarios with at most one caller (thorough: all scenarios) with the default environment answers (timers fire when nothing else can run, first ready select case (moving on to the next when the same select is met again), writes succeed; thorough: also with one environment deviation for scenarios of at most one call), using a cache of happens-before state keys: each state is expanded once, every state and transition is executed at least once; the cache is validated per run by a self-test (cached search = every-schedule search on 20 programs that fail when a component of the key is removed) and by comparing a harness digest whenever a key is met again; the flag exhaustive refers to the deviation-bounded families; for the cached pass the counters unbounded_* say how many scenarios closed and how many stopped at the state limit (quick 60000 states, thorough 1000000). Non-trivial = schedule with >=1 deviation",
 		Assumptions: []string{"timeouts are decided as events, no wall clock (a timeout must not come before the command's own duration has elapsed in virtual time); 'response or timeout' is all that is demanded when a timer fires early, except in executions without early timers, where an answered command must see its answer",
 			"the serial wrap is reached by a 65536-frame preamble that is executed, not explored (schedules branch only after it)"},
